@@ -1,5 +1,6 @@
 import Kvass.Driver.Coord
 import Kvass.Driver.K8s
+import Kvass.Driver.Sidecar
 
 open Kvass.Driver
 
@@ -16,4 +17,5 @@ def main (args : List String) : IO UInt32 := do
   match args with
   | ["coord"] => loop stdin Coord.handle; return 0
   | ["k8s"] => loop stdin K8s.handle; return 0
+  | ["sidecar"] => loop stdin Sidecar.handle; return 0
   | _ => IO.eprintln "usage: driver <engine>"; return 2
